@@ -250,6 +250,11 @@ func c05PutBack(c *Ctx) {
 			if len(dels) == 0 {
 				continue
 			}
+			// a function that records the value in a quarantine set (declined addresses) takes it out of circulation on purpose
+			if q, _ := mapOps(f, named, "unavailable"); len(q) > 0 {
+				c.R.Note("C05.K3: " + load.ShortFunc(f) + " quarantines the value (inserts into the unavailable set) instead of putting it back")
+				continue
+			}
 			for _, d := range dels {
 				n++
 				// an append to the free list executed with the delete
